@@ -99,8 +99,10 @@ func (l *lexer) run() {
 		close(l.token)
 
 		if e := recover(); e != nil {
-			// re-panic
-			panic(e)
+			if _, ok := e.(bailout); !ok {
+				// re-panic
+				panic(e)
+			}
 		}
 	}()
 
@@ -352,7 +354,7 @@ func (l *lexer) emit(typ int) {
 	case l.token <- tok:
 	case <-l.cancel:
 		// bailout
-		panic(nil)
+		panic(bailout{})
 	}
 }
 
@@ -388,6 +390,9 @@ func (l *lexer) Error(s string) {
 }
 
 type action func() action
+
+// bailout is the panic value used to unwind the lexer goroutine.
+type bailout struct{}
 
 type token struct {
 	typ int
